@@ -9,6 +9,7 @@
    The watermark handling of StreamJoin/OuterJoin and of the group-by (which wraps its source in an
    EventTimeBuffer and forwards the trigger's watermark) is modelled and proved with C19 and C16/C17. *)
 From Octo Require Import Buffer TVF BufferProofs TVFProofs.
+From Octo Require Joins GroupBy C18JoinProofs C18JoinProofs2 C18GroupByProofs Operators.
 From Coq Require Import Sorted Permutation.
 
 (* ---- the event-time buffer ---- *)
@@ -69,7 +70,8 @@ Proof. exact buffer_watermarks. Qed.
 Print Assumptions C18_buffer_watermarks_unchanged.
 
 (* ---- every modelled node: monotone watermarks, no late data created ---- *)
-(* nodes: EventTimeBuffer, Filter, Map, Unnest, tumble, max_diff_watermark (run_node in Model/Buffer.v) *)
+(* nodes: EventTimeBuffer, Filter, Map, Unnest, tumble, max_diff_watermark, Limit, Distinct,
+   OrderSensitiveTransform (run_node in Model/Buffer.v; the last three are the models of Model/Operators.v) *)
 Theorem C18_node_monotone : forall n inp out,
   run_node n inp = Ok out -> monotone inp = true -> monotone out = true.
 Proof. exact run_node_monotone. Qed.
@@ -79,6 +81,28 @@ Theorem C18_node_no_late : forall n inp out,
   run_node n inp = Ok out -> well_timed inp = true -> well_timed out = true.
 Proof. exact run_node_wt. Qed.
 Print Assumptions C18_node_no_late.
+
+(* Limit forwards its input — records and watermarks — unchanged up to and including its n-th record and
+   nothing after (nothing at all for n = 0): its output is a prefix of its input. *)
+Theorem C18_limit_forwards_a_prefix : forall n inp, exists rest, inp = Operators.run_limit n inp ++ rest.
+Proof. exact run_limit_prefix. Qed.
+Print Assumptions C18_limit_forwards_a_prefix.
+
+(* Distinct swallows every watermark (its metaSend returns nil): "monotone" holds vacuously and downstream
+   never learns about progress; the records it emits are input records, event times untouched. *)
+Theorem C18_distinct_swallows_watermarks : forall inp,
+  watermarks (Operators.run_distinct inp) = [] /\
+  forall r, In r (records (Operators.run_distinct inp)) -> In r (records inp).
+Proof. intro inp. split; [apply distinct_from_no_watermarks | intros r H; exact (distinct_from_records inp [] r H)]. Qed.
+Print Assumptions C18_distinct_swallows_watermarks.
+
+(* OrderSensitiveTransform emits only after its source ended: insertions without event time, no watermark
+   (the input's are swallowed) — nothing it emits can be late. *)
+Theorem C18_order_by_emits_untimed_rows : forall ks limit noretr inp out,
+  Operators.run_ost ks limit noretr inp = Ok out ->
+  watermarks out = [] /\ Forall (fun r => et r = zero_ns /\ retr r = false) (records out).
+Proof. exact run_ost_shape. Qed.
+Print Assumptions C18_order_by_emits_untimed_rows.
 
 (* max_diff_watermark makes any stream well timed (it drops what is at or below its own watermark). *)
 Theorem C18_mdw_output_well_timed : forall md res idx inp out,
@@ -111,6 +135,80 @@ Theorem C18_composition : forall (P : list event -> Prop),
   forall ns inp out, run_pipeline ns inp = Ok out -> P inp -> P out.
 Proof. exact run_pipeline_preserves. Qed.
 Print Assumptions C18_composition.
+
+(* ---- the joins and the group-by, on the models of C19 (Model/Joins.v) and C16/C17 (Model/GroupBy.v) ---- *)
+
+(* StreamJoin and OuterJoin (any receiveRecord, any key expressions, pinned or fixed phase switch), every
+   schedule sigma of the two inputs' messages: if each input's own watermarks never decrease, the watermarks
+   the join forwards never decrease. *)
+Theorem C18_join_monotone : forall recv switch_flag use_mark sigma,
+  C18JoinProofs.wm_mono_from zero_ns (Joins.proj_side Joins.SL sigma) = true ->
+  C18JoinProofs.wm_mono_from zero_ns (Joins.proj_side Joins.SR sigma) = true ->
+  monotone (snd (Joins.jrun recv switch_flag use_mark Joins.jinit sigma)) = true.
+Proof. exact C18JoinProofs.join_monotone. Qed.
+Print Assumptions C18_join_monotone.
+
+(* ... and while both inputs are open each forwarded watermark is the minimum of the two inputs' latest
+   watermarks, strictly above the one forwarded before ("the successive minima"). *)
+Theorem C18_join_forwards_minimum : forall recv switch_flag use_mark st s w st' o,
+  Joins.phase st = Joins.Both -> Joins.jstep recv switch_flag use_mark st (s, Joins.MWM w) = (st', o) ->
+  watermarks o = [] \/
+  (watermarks o = [Z.min (Joins.lwm st') (Joins.rwm st')] /\ Joins.minwm st < Z.min (Joins.lwm st') (Joins.rwm st') /\
+   Joins.minwm st' = Z.min (Joins.lwm st') (Joins.rwm st')).
+Proof. exact C18JoinProofs.join_forwards_minimum. Qed.
+Print Assumptions C18_join_forwards_minimum.
+
+(* the hypothesis of C19's theorems (each script well timed) gives the hypothesis above *)
+Theorem C18_join_scripts_well_timed_suffice : forall l w,
+  Joins.well_timed_from w l = true -> C18JoinProofs.wm_mono_from w l = true.
+Proof. exact C18JoinProofs.well_timed_wm_mono. Qed.
+Print Assumptions C18_join_scripts_well_timed_suffice.
+
+(* No late data, inner join (StreamJoin: any key expressions, with or without the NULL-key fix, any phase-switch
+   flags), every schedule: if each input is well timed and every input record carries an event time, the
+   join's output is well timed — every emitted row is above the last watermark the join forwarded.
+   PARTIAL with respect to the property's "every operator": (a) inner joins whose inputs contain records
+   without event time are covered only when they lie outside finding class 1 by the engine's oracle (the
+   hypothesis here is stronger than the complement of class_zero_time: C18_all_timed_outside_zero_time_class);
+   (b) OuterJoin's record clause (outside class 2) is oracle-only: its padded rows carry stored times. *)
+Theorem C18_join_no_late_partial : forall kl kr null_fix switch_flag use_mark sigma,
+  Joins.well_timed_from zero_ns (Joins.proj_side Joins.SL sigma) = true ->
+  Joins.well_timed_from zero_ns (Joins.proj_side Joins.SR sigma) = true ->
+  C18JoinProofs2.timed (Joins.proj_side Joins.SL sigma) = true ->
+  C18JoinProofs2.timed (Joins.proj_side Joins.SR sigma) = true ->
+  well_timed (snd (Joins.jrun (Joins.recv_stream kl kr null_fix) switch_flag use_mark Joins.jinit sigma)) = true.
+Proof. exact C18JoinProofs2.inner_join_no_late. Qed.
+Print Assumptions C18_join_no_late_partial.
+
+(* ... and each row the inner join emits for a record r carries the later of r's and its partner's event
+   time, so it is never earlier than r's. *)
+Theorem C18_join_row_time : forall kl kr null_fix s r flag my theirs t' out x,
+  Joins.recv_stream kl kr null_fix s r flag my theirs = Ok (t', out) -> In x out ->
+  exists t, et x = Joins.later (et r) t /\ et r <= et x.
+Proof. exact C18JoinProofs2.inner_join_row_time. Qed.
+Print Assumptions C18_join_row_time.
+
+(* Both group-by nodes (SimpleGroupBy, CustomTriggerGroupBy behind its EventTimeBuffer), every aggregate
+   vector, trigger set and key layout: exactly the input's watermarks are forwarded, in order; hence
+   monotone whenever the input is. *)
+Theorem C18_group_by_watermarks : forall ST rinit radd rout wl nk kti trigs es,
+  watermarks (GroupBy.gb_run ST rinit radd rout wl nk kti trigs es) = watermarks es.
+Proof. exact C18GroupByProofs.group_by_watermarks. Qed.
+Print Assumptions C18_group_by_watermarks.
+
+Theorem C18_group_by_monotone : forall c es out,
+  GroupBy.run_group_by c es = Ok out -> monotone es = true -> monotone out = true.
+Proof. exact C18GroupByProofs.run_group_by_monotone. Qed.
+Print Assumptions C18_group_by_monotone.
+
+(* The three finding classes of findings/C18.txt are the Coq predicates class_zero_time, class_padded_row,
+   class_eos_key of Model/Buffer.v (c18_class); the engine's tag of every oracle-only case is compared with
+   them in c18_tie.  Inputs whose records all carry an event time lie outside class 1. *)
+Theorem C18_all_timed_outside_zero_time_class : forall L R,
+  forallb (fun r => negb (no_event_time r)) L = true -> forallb (fun r => negb (no_event_time r)) R = true ->
+  class_zero_time L R = false.
+Proof. exact C18JoinProofs.all_timed_not_class_zero_time. Qed.
+Print Assumptions C18_all_timed_outside_zero_time_class.
 
 (* well_timed implies monotone *)
 Theorem C18_well_timed_monotone : forall es, well_timed es = true -> monotone es = true.
